@@ -725,6 +725,15 @@ inline std::vector<SvcEntry> buildSvcTable()
         auto ev = l.analyser->externalVariable(m, nameOf(c), v->name());
         s.expect(has == (ev != nullptr), "containsExternalVariable() and externalVariable() disagree");
         s.expect(m != nullptr || (!has && ev == nullptr), "a null model was taken for the model of an external variable whose variable is in no model");
+        if (m != nullptr && s.variant % 2 == 0) {
+            // another model that looks exactly like it is another model
+            auto twin = m->clone();
+            size_t count = l.analyser->externalVariableCount();
+            bool hasTwin = l.analyser->containsExternalVariable(twin, nameOf(c), v->name());
+            auto evTwin = l.analyser->externalVariable(twin, nameOf(c), v->name());
+            bool removedTwin = l.analyser->removeExternalVariable(twin, nameOf(c), v->name());
+            s.expect(!hasTwin && evTwin == nullptr && !removedTwin && l.analyser->externalVariableCount() == count, "a copy of the model was taken for the model of a registered external variable (contains " + str(hasTwin) + ", removed " + str(removedTwin) + ")");
+        }
         for (size_t i = 0; i <= l.analyser->externalVariableCount(); ++i) {
             auto e = l.analyser->externalVariable(i);
             s.expect((e != nullptr) == (i < l.analyser->externalVariableCount()), "externalVariable(index) null-ness disagrees with the count");
@@ -798,6 +807,15 @@ inline std::vector<SvcEntry> buildSvcTable()
         }
         auto comp = std::dynamic_pointer_cast<Component>(v->parent());
         std::string cname = nameOf(comp), vname = v->name();
+        {
+            // no model is nobody's model
+            size_t before = l.ev->dependencyCount();
+            ModelPtr none;
+            bool has = l.ev->containsDependency(none, cname, vname);
+            auto got = l.ev->dependency(none, cname, vname);
+            bool removed = s.variant % 4 == 1 && l.ev->removeDependency(none, cname, vname);
+            s.expect(!has && got == nullptr && !removed && l.ev->dependencyCount() == before, "a null model was taken for the model of a dependency that is in no model any more (contains " + str(has) + ", removed " + str(removed) + ")");
+        }
         std::vector<ModelPtr> asked {modelOf(v), modelOf(l.ev->variable()), modelOf(l.previous.lock())};
         for (auto &mm : asked) {
             if (mm == nullptr) {
